@@ -33,6 +33,7 @@ def walk(sheet):
     def rule_links(rule, container_rule, top):
         name = '%s %r' % (type(rule).__name__, (rule.cssText or '')[:30])
         out.append((name + '.parentRule', rule.parentRule, container_rule))
+        out.append((name + '.parent', rule.parent, container_rule))          # (the parent node of a rule in a rule list)
         out.append((name + '.parentStyleSheet', rule.parentStyleSheet, top))
         sl = getattr(rule, 'selectorList', None)
         if sl is not None and rule.type == rule.STYLE_RULE:
@@ -263,7 +264,7 @@ def run_history(case):
         if bad:
             return 'sheet %d after %r: %s' % (which, list(ops[:n + 1]), bad[0])
         for r in detached:
-            if r.parentRule is not None or r.parentStyleSheet is not None:
+            if r.parentRule is not None or r.parentStyleSheet is not None or r.parent is not None:
                 if not any(r is x for c in containers(sheet) for x in c.cssRules):
                     return 'sheet %d after %r: the deleted rule %s still reports parentRule=%s parentStyleSheet=%s' % (
                         which, list(ops[:n + 1]), short(r), short(r.parentRule), short(r.parentStyleSheet))
